@@ -8,6 +8,12 @@ export CARGO_NET_OFFLINE=true CARGO_BUILD_JOBS=8
 git -C /repo worktree remove --force $WT 2>/dev/null
 git -C /repo worktree add -q --detach $WT HEAD || exit 2
 declare -A DEMO=(
+ [C08h_subshell_runs_parents_exit_trap]="-p yash-semantics --test c08h_exit_trap_in_subshell"
+ [C10h_postfix_on_readonly_ignored]="-p yash-semantics --test c10h_arith_readonly"
+ [C12h_jobs_p_does_not_remove_reported_jobs]="-p yash-builtin --test c12h_jobs_pgid_only"
+ [C13h_plain_assignment_erases_substitution_status]="-p yash-semantics --test c13h_assign_cmdsubst_status"
+ [C06h_function_body_display_drops_redirections]="-p yash-builtin --test c06h_typeset_f_body_redirs"
+ [C09h_real_tmpfile_keeps_cloexec]="-p yash-env -p yash-cli -E test(c09h)"
  [C20g_typeset_strips_all_leading_signs]="-p yash-builtin --test c20g_typeset_sign_cluster"
  [C16g_source_registered_as_regular_builtin]="-p yash-builtin --test c16g_assignment_prefix_source_alias"
  [C19g_physical_path_resolves_rest_before_link_target]="-p yash-env -p yash-builtin -E binary(~c19g)"
